@@ -194,6 +194,10 @@ def run(repo: Repo, R: Report) -> None:
             base = None
             if isinstance(v, ast.Call) and call_attr(v) == "setdefault" and isinstance(v.func, ast.Attribute):
                 base = dotted_name(v.func.value)
+            elif isinstance(v, ast.Call) and call_attr(v) == "get" and isinstance(v.func, ast.Attribute) and len(v.args) == 1 and not v.keywords:
+                # `m.get(k)`: the object stored in m (or None - a store into None raises, it is not silently lost)
+                fv = v.func.value
+                base = dotted_name(fv) if not isinstance(fv, ast.Subscript) else dotted_name(fv.value)
             elif isinstance(v, ast.Subscript):
                 base = dotted_name(v.value)
             return base is not None and attached_at(base, at, depth + 1)
@@ -217,6 +221,37 @@ def run(repo: Repo, R: Report) -> None:
             R.check(ok, r_attach, CLI, "_run", norm(a), f"the flag value is written into `{holder}`, which is not (a part of) the configuration that gets parsed: the flag is silently ignored and the gate it controls stays open", a.lineno)
     if n_flag_stores == 0:
         raise AnalysisError("_run: no flag-driven configuration stores found")
+    # the run-space flags go into the block the parser reads: every place parse_pipeline_config may take the
+    # run-space block from (top level, nested under `pipeline`) is consulted by the CLI before it creates a block of
+    # its own - otherwise the new block shadows the declared one and the declared plan (and its cap) vanish
+    def key_path(e: Optional[ast.AST], root: str) -> Optional[Tuple[str, ...]]:
+        if isinstance(e, ast.Name):
+            return () if e.id == root else None
+        if isinstance(e, ast.Subscript) and isinstance(e.slice, ast.Constant) and isinstance(e.slice.value, str):
+            b = key_path(e.value, root)
+            return None if b is None else b + (e.slice.value,)
+        if isinstance(e, ast.Call) and isinstance(e.func, ast.Attribute) and e.func.attr in ("get", "setdefault") and e.args and isinstance(e.args[0], ast.Constant) and isinstance(e.args[0].value, str):
+            b = key_path(e.func.value, root)
+            return None if b is None else b + (e.args[0].value,)
+        return None
+
+    ppc = repo.func("semantiva/configurations/load_pipeline_from_yaml.py", "parse_pipeline_config")
+    ppc_cfg = ppc.args.args[0].arg
+    parser_paths: Set[Tuple[str, ...]] = set()
+    for c in calls_in(ppc):
+        if call_attr(c) == "_parse_run_space_block" and c.args:
+            srcs = assigned_value(ppc, c.args[0].id) if isinstance(c.args[0], ast.Name) else [c.args[0]]
+            for v in srcs:
+                kp = key_path(v, ppc_cfg)
+                if kp:
+                    parser_paths.add(kp)
+    if not parser_paths:
+        raise AnalysisError("parse_pipeline_config: where the run-space block is read from was not recognised")
+    rs_holders = {a.targets[0].value.id for a in assigns if isinstance(a.targets[0], ast.Subscript) and isinstance(a.targets[0].value, ast.Name) and isinstance(a.targets[0].slice, ast.Constant) and a.targets[0].slice.value in ("max_runs", "dry_run") and _feeds_config(fn, a.targets[0].value.id, CONFIG)}
+    for holder in sorted(rs_holders):
+        cli_paths = {kp for v in assigned_value(fn, holder) for kp in [key_path(v, CONFIG)] if kp}
+        missing_paths = sorted(parser_paths - cli_paths)
+        R.check(not missing_paths, r_attach, CLI, "_run", f"run-space flags are applied to the block the parser reads ({sorted('.'.join(p) for p in parser_paths)})", f"the parser takes the run-space block from {['.'.join(p) for p in missing_paths]} when the top-level one is absent, but the CLI never looks there before writing the flag into a block of its own: with a run space declared at {['.'.join(p) for p in missing_paths]}, `--run-space-max-runs` / `--run-space-dry-run` create a top-level block that shadows it - the declared plan vanishes and an over-cap configuration is executed", fn.lineno)
     parse_call = next((c for c in calls_in(fn) if call_attr(c) == "parse_pipeline_config"), None)
     R.check(parse_call is not None and parse_call.args and dotted_name(parse_call.args[0]) == CONFIG, r_attach, CLI, "_run", "parse_pipeline_config(config, ...)", "the parsed object is not the merged configuration", fn.lineno)
 
